@@ -48,7 +48,7 @@ type Work struct {
 	Cut     int    `json:"cut,omitempty"`      // >0: the source text handed to the interpreter ends after this many bytes (a program that arrives truncated)
 }
 
-const nSites = 137
+const nSites = 138
 const nWraps = 7
 
 func siteSrc(k int, id string) string {
@@ -346,6 +346,9 @@ func siteSrc(k int, id string) string {
 		return "func nc" + id + "(start) {\nmodule cm" + id + " {\nfunc get() { return start }\nfunc add(n) { return [start, n] }\n}\nreturn cm" + id + "\n}\nco" + id + " = nc" + id + "(h(" + id + "))\nhid(1)\ncv" + id + " = co" + id + ".get()\ncw" + id + " = co" + id + ".add(2)\ncv" + id
 	case 135:
 		return "func pt" + id + "(x, y) {\nmodule pm" + id + " {\nfunc gx() { return x }\nfunc gy() { return y }\n}\nreturn pm" + id + "\n}\nfunc tr" + id + "(n) {\nif n == 0 { return pt" + id + "(1, 2) }\nl" + id + ", r" + id + " = tr" + id + "(n - 1), tr" + id + "(n - 1)\nreturn l" + id + "\n}\nh(" + id + ")\npo" + id + " = tr" + id + "(2)\npt" + id + "(3, 4).gy()"
+	// the zero element of a slice of modules used as the first element of a TYPE path
+	case 136:
+		return "module my" + id + " { make(type T, 1) }\nmake(type EY" + id + ", my" + id + ")\nay" + id + " = make([]EY" + id + ", 1)\nxy" + id + " = ay" + id + "[0]\ntry { ty" + id + " = make(xy" + id + ".T) } catch { }\ntry { uy" + id + " = make(xy" + id + ".q.T) } catch { }\ntry { vy" + id + " = make([]xy" + id + ".T) } catch { }\nh(" + id + ")\nmake(xy" + id + ".T)"
 	default:
 		return "x" + id + " = hid(1) & hid(\"z\")\ny" + id + " = hid(1.5) | hid(nil)\nz" + id + " = hid({}) ^ 1\nw" + id + " = hid([1, 2]) + hid({\"a\": 1})\nv" + id + " = hid(nil) < hid([1])\nu" + id + " = hid(func() { }) == hid(func() { })"
 	}
